@@ -197,8 +197,11 @@ def session(req):
                         porcelain.unstage(r, [os.path.join(wt.encode(), bytes.fromhex(e[1]))]) if hasattr(porcelain, "unstage") else None
                         step["applied"] = hasattr(porcelain, "unstage")
                     elif e[0] == "rm-cached":
-                        porcelain.remove(r, paths=[os.path.join(wt.encode(), bytes.fromhex(e[1]))], cached=True)
-                        step["applied"] = True
+                        if bytes.fromhex(e[1]) in r.open_index():
+                            porcelain.remove(r, paths=[os.path.join(wt.encode(), bytes.fromhex(e[1]))], cached=True)
+                            step["applied"] = True
+                        else:
+                            step["applied"] = False      # not tracked (any more): git rm --cached refuses as well
                     else:
                         step["applied"] = apply_edit(wt, e)
                 except Exception as ex:  # noqa: BLE001
@@ -208,6 +211,31 @@ def session(req):
                 except Exception as ex:  # noqa: BLE001
                     step["dulwich"] = {"exc": type(ex).__name__ + ":" + str(ex)[:80]}
                 step["git"] = git_status(wt)
+                # where the two disagree about unstaged paths: what is really the case (work tree content and mode against
+                # the index entry, read directly) -- an index rewritten without smudging racily clean entries fools git
+                try:
+                    du, gu = set(step["dulwich"].get("unstaged", [])), set(step["git"].get("unstaged", []))
+                    if du != gu:
+                        ix = r.open_index()
+                        truth = {}
+                        for hx_ in du ^ gu:
+                            pb = bytes.fromhex(hx_)
+                            fp = os.path.join(os.fsencode(wt), pb)
+                            try:
+                                ent = ix[pb]
+                            except KeyError:
+                                truth[hx_] = "not-in-index"
+                                continue
+                            try:
+                                st_ = os.lstat(fp)
+                                from dulwich.index import blob_from_path_and_stat, cleanup_mode
+                                changed = blob_from_path_and_stat(fp, st_).id != ent.sha or cleanup_mode(st_.st_mode) != cleanup_mode(ent.mode)
+                                truth[hx_] = "changed" if changed else "same"
+                            except (FileNotFoundError, NotADirectoryError, IsADirectoryError):
+                                truth[hx_] = "changed"
+                        step["truth"] = truth
+                except Exception:  # noqa: BLE001
+                    pass
                 res["steps"].append(step)
             # ---- switching between the trees of the family
             sw = []
